@@ -18,7 +18,7 @@ func init() {
 		Explanation: "Decides structural clauses of the supervisor's restart semantics in the three state machines (one-for-one, all/rest-for-one, simple-one-for-one): S1 restart decision table — the restart point (the restart-intensity check whose 'not exceeded' edge produces a start action) is reachable only with strategy Permanent, or with strategy Transient on paths that passed reason != Normal and reason != Shutdown, never with Temporary, and never for a disabled child spec (enum value sets of the strategy refined along the switch edges, must-pass of the reason tests, unreachability from the disabled edge); S2 no termination goes unnoticed — every MessageExit* arm of the supervisor's loop hands the exit to the state machine's childTerminated and its action to handleAction on every path, and a failing handleAction ends the loop with that error; S3 handleAction forces LinkChild and LinkParent before every spawn and records the child before asking the state machine for the next action; a spawn error ends the supervisor; S4 sibling agreement on shutdown bookkeeping — wherever a state machine enters its shutdown mode it also sets the wait set and the shutdown reason on the same path, and in shutdown mode it terminates itself exactly when the wait set is empty. Added while probing: S3 the loop that sends the exits is left only by exhausting the list; S5 every spec handed out for starting is a fresh one or has its disabled flag tested false; S6 shutdown is entered only through a cause edge (non-child exit, significant child, intensity exceeded); S7 the Terminate action is produced only on an emptiness edge of the running/wait set; S8 the terminated child's slot is cleared where it is recognised; S9 (all/rest-for-one) the restart position is the child's own index, set under the rest-for-one edge, stops walk the spec list in reverse and starts forward, both from that position; S10 in the stopping phase every termination is compared with the restart position; S11 every explicit panic of a state machine is a listed belief.",
 		NotDecided: []string{
 			"which children run after an arbitrary history (the behavioural core of the property)",
-			"start/stop order, KeepOrder, significant children, auto-shutdown",
+			"the full start/stop choreography with KeepOrder over several rounds (only the walk direction, the restart position, the shutdown causes and the emptiness condition of self-termination are decided)",
 			"interleaving of several children dying while a restart is in progress",
 		},
 		Assumptions: []string{"the exit of a child reaches the supervisor (C04/C10: children are linked both ways)"},
